@@ -240,7 +240,7 @@ class Engine(
                     # add a nested subquery here.  We also need a subquery if
                     # the Select's Projection hides a column with the same tag,
                     # which must not be calculated a second time upstream of it.
-                    return Select.apply_skip(operation._finish_apply(select))
+                    return self._nest_unary_over_select(operation, select)
                 elif select.has_projection:
                     return select.reapply_skip(
                         after=operation,
@@ -329,7 +329,7 @@ class Engine(
                     # a SQL UNION or UNION ALL, and we trust the user's intent
                     # in putting those upstream of this operation, so we also
                     # add a nested subquery here.
-                    return Select.apply_skip(operation._finish_apply(select))
+                    return self._nest_unary_over_select(operation, select)
                 else:
                     return select.reapply_skip(after=operation)
             case Slice():
@@ -358,6 +358,20 @@ class Engine(
             case Identity():
                 return select
         raise NotImplementedError(f"Unsupported operation type {operation} for engine {self}.")
+
+    def _nest_unary_over_select(self, operation: UnaryOperation, select: Select) -> Select:
+        """Apply an order-preserving operation to a `Select` in a new, outer
+        query level.
+
+        A Sort that is not followed by a Slice is moved to the outer level
+        (when its columns are still available there): left in the subquery it
+        would be silently dropped, and the relation would no longer be
+        recognized as sorted by operations that refuse to lose row order.
+        """
+        if select.has_sort and not select.has_slice and select.sort.columns_required <= select.columns:
+            inner = select.reapply_skip(sort=None)
+            return Select.apply_skip(operation._finish_apply(inner), sort=select.sort)
+        return Select.apply_skip(operation._finish_apply(select))
 
     def append_binary(self, operation: BinaryOperation, lhs: Relation, rhs: Relation) -> Select:
         # Docstring inherited.
